@@ -24,7 +24,7 @@ EXPLANATION = (
     'operands in evaluation order; (e) selectors only select; (f) composite '
     'operations accumulate into a fresh list.  Validity of produced DNAs over '
     'all spaces is not decided.')
-FLOORS = {'C14.a': 2, 'C14.b': 1, 'C14.c': 6, 'C14.d': 6, 'C14.e': 3, 'C14.f': 2, 'C14.g': 4}
+FLOORS = {'C14.a': 2, 'C14.b': 1, 'C14.c': 6, 'C14.d': 6, 'C14.e': 3, 'C14.f': 2, 'C14.g': 4, 'C14.z': 2}
 FILES = ['pyglove/ext/evolution/base.py', 'pyglove/ext/evolution/mutators.py',
          'pyglove/ext/evolution/recombinators.py', 'pyglove/ext/evolution/selectors.py',
          'pyglove/ext/evolution/where.py', 'pyglove/ext/evolution/nsga2.py']
@@ -438,4 +438,5 @@ def run(ctx):
   rule_e(ctx)
   rule_f(ctx)
   rule_g(ctx)
+  S.optional_truthiness_obligations(ctx, 'C14.z', ['pyglove/ext/evolution/base.py', 'pyglove/ext/evolution/mutators.py', 'pyglove/ext/evolution/recombinators.py', 'pyglove/ext/evolution/selectors.py', 'pyglove/ext/evolution/where.py'], 'seed 0 and count 0 are values')
   ctx.assume('validity of produced DNAs and the number a selector returns are not decided')
